@@ -161,16 +161,35 @@ def rule_r1(facts, rep, rid="C07-R1"):
     rep.floor(rid, "chain rows", n, 20)
 
 
+def _strip_casts(e):
+    while e is not None and e.get("k") in ("cast",) or (e is not None and e.get("k") == "block" and not e.get("stmts") and e.get("e") is not None):
+        e = e.get("e")
+    return e
+
+
+def _is_level_field(e):
+    e = _strip_casts(e)
+    return e is not None and e.get("k") == "field" and e.get("name") == "header_level" and (e.get("e") or {}).get("name") == "self"
+
+
+def _is_one(e):
+    e = _strip_casts(e)
+    return e is not None and e.get("k") == "lit" and str(e.get("v", "")).split(":", 1)[-1].rstrip("usize8") in ("1",)
+
+
 def _level_class(e):
-    """Class of a heading-level argument: same / +1 / reset0 / other."""
-    t = fb.show(e).replace(" ", "")
-    if t in ("self.header_level",):
+    """Class of a heading-level argument: same / +1 / reset0 / other.  `+1` in any spelling: `l + 1`, `1 + l`, `l.saturating_add(1)`, `l.checked_add(1)..`,
+    with casts anywhere (`l as u8 + 1`, `(l + 1) as u8`)."""
+    e0 = _strip_casts(e)
+    if _is_level_field(e0):
         return "same"
-    if t in ("(self.header_level+1)", "(1+self.header_level)"):
+    if e0 is not None and e0.get("k") == "binary" and e0.get("op") == "+" and ((_is_level_field(e0["l"]) and _is_one(e0["r"])) or (_is_one(e0["l"]) and _is_level_field(e0["r"]))):
         return "+1"
-    if t == "0":
+    if e0 is not None and e0.get("k") == "mcall" and e0["name"] in ("saturating_add", "wrapping_add", "checked_add", "add") and _is_level_field(e0["recv"]) and e0.get("args") and _is_one(e0["args"][0]):
+        return "+1"
+    if e0 is not None and e0.get("k") == "lit" and str(e0.get("v", "")).split(":", 1)[-1].rstrip("usize8") == "0":
         return "reset0"
-    return "other:" + t
+    return "other:" + fb.show(e).replace(" ", "")
 
 
 def rule_r2(facts, rep, rid="C07-R2"):
@@ -207,7 +226,7 @@ def rule_r2(facts, rep, rid="C07-R2"):
                 key = "%s|arm:Section|emitted-level" % f.def_
                 n += 1
                 t = fb.show(hdr[0]["args"][0]).replace(" ", "") if hdr else ""
-                if t in ("((self.header_levelas_)+1)", "((self.header_level+1)as_)", "(1+(self.header_levelas_))"):
+                if hdr and _level_class(hdr[0]["args"][0]) == "+1":
                     rep.ok(rid, key, "Header(header_level + 1, ..)", loc(f, hdr[0]))
                 else:
                     rep.violation(rid, key, "a section's heading is emitted with level `%s`, not header_level + 1" % t, loc(f, hdr[0]) if hdr else f.loc)
